@@ -215,5 +215,5 @@ def program(draw, weights=None, min_steps=8, max_steps=30, prefixes=PREFIXES, se
             steps.append({"op": "RESTART"})
         if locked_rate and steps[-1]["op"] in ("PUT", "DELETE", "PROPPATCH", "POST") and steps[-1].get("name", "") is not None and draw(st.integers(0, locked_rate - 1)) == 0:
             inner = steps.pop()
-            steps.append({"op": "LOCKED", "fe": inner["fe"], "afe": inner.get("afe", "wsgi"), "coll": inner["coll"], "inner": inner})
+            steps.append({"op": "LOCKED", "fe": inner["fe"], "afe": inner.get("afe", "wsgi"), "coll": inner["coll"], "inner": inner, "lock": draw(st.sampled_from(["index", "ref"]))})
     return {"config": cfg, "steps": steps}
